@@ -13,6 +13,7 @@ CONSTANTS Names = {"n1","n2","n3"}
           Depths = {1,2,3,4}
           MaxNow = 6
           MaxSeq = 6
+          Procs = {}
           Devs = {}
 INVARIANTS ChainResult RecursionErrorIffTooLong ReadYourPublish MinNonZeroTTL CacheCoherent DsRoutingAgree
            ExplicitSeqMustIncrease PublishStores CacheBounded
